@@ -9,51 +9,50 @@ open DFV
 theorem applyUn_cells (env : Env) (u : UnOp) (n : List Nat) (f g : CF)
     (cf : List Nat → List GQ) (vf : List Nat → Bool) (hf : Cells n f cf vf)
     (h : applyUn env u f = .ok g) :
-    Cells n g (fun i => (cf i).map (unFn env u)) (fun i => if isUfuncUn u then true else vf i) ∧
-      g.mesh = f.mesh := by
+    Cells n g (fun i => (cf i).map (unFn env u)) vf ∧ g.mesh = f.mesh := by
   cases u <;> simp only [applyUn] at h
   case pos =>
     injection h with h; subst h
-    exact ⟨hf.congr (fun i => by simp [unFn]) (fun i => by simp [isUfuncUn]), rfl⟩
+    exact ⟨hf.congr (fun i => by simp [unFn]) (fun _ => rfl), rfl⟩
   case neg =>
     obtain ⟨hc, hm, _⟩ := mapField_cells _ _ _ n f g cf vf hf h
-    exact ⟨hc.congr (fun _ => rfl) (fun i => by simp [isUfuncUn]), hm⟩
+    exact ⟨hc.congr (fun _ => rfl) (fun _ => rfl), hm⟩
   case abs =>
     obtain ⟨hc, hm, _⟩ := mapField_cells _ _ _ n f g cf vf hf h
-    exact ⟨hc.congr (fun _ => rfl) (fun i => by simp [isUfuncUn]), hm⟩
+    exact ⟨hc.congr (fun _ => rfl) (fun _ => rfl), hm⟩
   case real =>
     obtain ⟨hc, hm, _⟩ := mapField_cells _ _ _ n f g cf vf hf h
-    exact ⟨hc.congr (fun _ => rfl) (fun i => by simp [isUfuncUn]), hm⟩
+    exact ⟨hc.congr (fun _ => rfl) (fun _ => rfl), hm⟩
   case imag =>
     obtain ⟨hc, hm, _⟩ := mapField_cells _ _ _ n f g cf vf hf h
-    exact ⟨hc.congr (fun _ => rfl) (fun i => by simp [isUfuncUn]), hm⟩
+    exact ⟨hc.congr (fun _ => rfl) (fun _ => rfl), hm⟩
   case conj =>
     obtain ⟨hc, hm, _⟩ := mapField_cells _ _ _ n f g cf vf hf h
-    exact ⟨hc.congr (fun _ => rfl) (fun i => by simp [isUfuncUn]), hm⟩
+    exact ⟨hc.congr (fun _ => rfl) (fun _ => rfl), hm⟩
   case absP =>
     obtain ⟨hc, hm, _⟩ := mapField_cells _ _ _ n f g cf vf hf h
-    exact ⟨hc.congr (fun _ => rfl) (fun i => by simp [isUfuncUn]), hm⟩
+    exact ⟨hc.congr (fun _ => rfl) (fun _ => rfl), hm⟩
   case phase =>
     obtain ⟨hc, hm, _⟩ := mapField_cells _ _ _ n f g cf vf hf h
-    exact ⟨hc.congr (fun _ => rfl) (fun i => by simp [isUfuncUn]), hm⟩
+    exact ⟨hc.congr (fun _ => rfl) (fun _ => rfl), hm⟩
   case unegative =>
     obtain ⟨hc, hm, _⟩ := ufunc1_cells _ _ n f g cf vf hf h
-    exact ⟨hc.congr (fun _ => rfl) (fun i => by simp [isUfuncUn]), hm⟩
+    exact ⟨hc.congr (fun _ => rfl) (fun _ => rfl), hm⟩
   case upositive =>
     obtain ⟨hc, hm, _⟩ := ufunc1_cells _ _ n f g cf vf hf h
-    exact ⟨hc.congr (fun _ => rfl) (fun i => by simp [isUfuncUn]), hm⟩
+    exact ⟨hc.congr (fun _ => rfl) (fun _ => rfl), hm⟩
   case uabsolute =>
     obtain ⟨hc, hm, _⟩ := ufunc1_cells _ _ n f g cf vf hf h
-    exact ⟨hc.congr (fun _ => rfl) (fun i => by simp [isUfuncUn]), hm⟩
+    exact ⟨hc.congr (fun _ => rfl) (fun _ => rfl), hm⟩
   case usquare =>
     obtain ⟨hc, hm, _⟩ := ufunc1_cells _ _ n f g cf vf hf h
-    exact ⟨hc.congr (fun _ => rfl) (fun i => by simp [isUfuncUn]), hm⟩
+    exact ⟨hc.congr (fun _ => rfl) (fun _ => rfl), hm⟩
   case uconjugate =>
     obtain ⟨hc, hm, _⟩ := ufunc1_cells _ _ n f g cf vf hf h
-    exact ⟨hc.congr (fun _ => rfl) (fun i => by simp [isUfuncUn]), hm⟩
+    exact ⟨hc.congr (fun _ => rfl) (fun _ => rfl), hm⟩
   case usign =>
     obtain ⟨hc, hm, _⟩ := ufunc1_cells _ _ n f g cf vf hf h
-    exact ⟨hc.congr (fun _ => rfl) (fun i => by simp [isUfuncUn]), hm⟩
+    exact ⟨hc.congr (fun _ => rfl) (fun _ => rfl), hm⟩
 
 /-! ## forward operators -/
 
@@ -238,11 +237,6 @@ theorem reflectedOp_cells (env : Env) (b : BinOp) (n : List Nat) (od : Opd) (f g
 
 /-! ## one binary step -/
 
-/-- does the left operand dispatch to `__array_ufunc__` (NumPy object)? -/
-def npLeftV : Val → Bool
-  | .raw o => isNp o
-  | .fld _ => false
-
 /-- the field operand whose mesh the result of a binary step lives on -/
 def meshOf : Val → Val → Option CF
   | .fld f, _ => some f
@@ -269,15 +263,14 @@ theorem applyBin_cells (env : Env) (b : BinOp) (n : List Nat) (l r : Val) (g : C
     (hl : ValCells n l cl vl) (hr : ValCells n r cr vr)
     (hok : (b = .shl ∨ b = .angle) → (∀ od, l = .raw od → OpdLiftOk n od) ∧ (∀ od, r = .raw od → OpdLiftOk n od))
     (h : applyBin env b l r = .ok (.fld g)) :
-    Cells n g (fun i => binCell env b (cl i) (cr i))
-      (fun i => if isUfuncBin b || npLeftV l then true else vl i && vr i) ∧
+    Cells n g (fun i => binCell env b (cl i) (cr i)) (fun i => vl i && vr i) ∧
     ∃ self, meshOf l r = some self ∧ g.mesh = self.mesh := by
   by_cases hu : isUfuncBin b = true
   · -- explicit ufunc call
     have h' : ufunc2 (binFn b) (isPow b) l r = .ok g := by
       cases b <;> simp [isUfuncBin] at hu <;> simp only [applyBin] at h <;> exact wrap_ok h
-    obtain ⟨hc, self, hs, hm⟩ := ufunc2_cells _ _ n l r g cl cr vl vr hl hr h'
-    refine ⟨hc.congr (fun i => (binCell_ufunc env b hu _ _).symm) (fun i => by simp [hu]), self, ?_, hm⟩
+    obtain ⟨hc, ⟨self, hs, hm⟩, _⟩ := ufunc2_cells _ _ n l r g cl cr vl vr hl hr h'
+    refine ⟨hc.congr (fun i => (binCell_ufunc env b hu _ _).symm) (fun _ => rfl), self, ?_, hm⟩
     rw [← firstFld_eq_meshOf]; exact hs
   · have hu' : isUfuncBin b = false := by simpa using hu
     cases l with
@@ -286,7 +279,7 @@ theorem applyBin_cells (env : Env) (b : BinOp) (n : List Nat) (l r : Val) (g : C
       have h' : forwardOp env b f r = .ok g := by
         cases b <;> simp [isUfuncBin] at hu' <;> simp only [applyBin] at h <;> exact wrap_ok h
       obtain ⟨hc, hm⟩ := forwardOp_cells env b n f g r cl cr vl vr hf hr (fun hb => (hok hb).2) h'
-      exact ⟨hc.congr (fun _ => rfl) (fun i => by simp [hu', npLeftV]), f, rfl, hm⟩
+      exact ⟨hc, f, rfl, hm⟩
     | raw o =>
       cases r with
       | raw o2 =>
@@ -300,18 +293,18 @@ theorem applyBin_cells (env : Env) (b : BinOp) (n : List Nat) (l r : Val) (g : C
               first
                 | exact wrap_ok h
                 | cases h
-          obtain ⟨hc, self, hs, hm⟩ := ufunc2_cells _ _ n _ _ g cl cr vl vr hl hr h'
+          obtain ⟨hc, ⟨self, hs, hm⟩, _⟩ := ufunc2_cells _ _ n _ _ g cl cr vl vr hl hr h'
           have hbc : ∀ xs ys, binCell env b xs ys = bz (binFn b) xs ys := by
             intro xs ys
             cases b <;> simp [isUfuncBin] at hu' <;> first | rfl | (simp [applyBin, hnp] at h)
-          refine ⟨hc.congr (fun i => (hbc _ _).symm) (fun i => by simp [npLeftV, hnp]), self, ?_, hm⟩
+          refine ⟨hc.congr (fun i => (hbc _ _).symm) (fun _ => rfl), self, ?_, hm⟩
           rw [← firstFld_eq_meshOf]; exact hs
         · have hnp' : isNp o = false := by simpa using hnp
           have h' : reflectedOp b o f = .ok g := by
             cases b <;> simp [isUfuncBin] at hu' <;>
               simp only [applyBin, hnp', Bool.false_eq_true, if_false] at h <;> exact wrap_ok h
           obtain ⟨hc, hm⟩ := reflectedOp_cells env b n o f g cr vr hf (fun hb => (hok (Or.inl hb)).1 o rfl) h'
-          refine ⟨hc.congr (fun i => by rw [hl.1 i]) (fun i => by simp [hu', npLeftV, hnp', hl.2 i]), f, rfl, hm⟩
+          refine ⟨hc.congr (fun i => by rw [hl.1 i]) (fun i => by simp [hl.2 i]), f, rfl, hm⟩
 
 theorem wrap_fld {x : M CF} {v : Val}
     (h : (match x with
